@@ -391,6 +391,7 @@ def pipeline(ctx, area, n, extra_gen=(), timeout=3000, model=True):
     write_jsonl(inp, inputs)
     implf, modelf = ctx.path(area + ".impl.jsonl"), ctx.path(area + ".model.jsonl")
     p = run_harness([area, "exec", "-in", inp, "-out", implf], timeout=timeout)
+    open(ctx.path(area + ".exec.stderr"), "w").write(p.stderr)
     if p.returncode != 0:
         ctx.l2_broken.append({"stream": area + "-exec", "detail": (p.stdout + p.stderr)[-2000:]})
         return None
